@@ -343,12 +343,16 @@ impl<Aux> Vm<'_, Aux> {
         let _verif_run_guard = crate::verif::RunGuard::enter(&self.runtime_data);
         let len = program.bytecode.len();
         let bytecode_ptr = program.bytecode.as_ptr();
+        // address of the instruction that is being executed: the trace table is keyed by the
+        // first byte of an instruction, while `instr_ptr` already points past it (and past its
+        // operands) when an error is raised
+        let failing_instr = std::cell::Cell::new(*instr_ptr);
         let payload_to_error =
             |err,
-             instr_ptr: usize,
+             _instr_ptr: usize,
              stack: &crate::collections::bounded_stack::BoundedStack<CallFrame>| {
                 let mut trace = Vec::with_capacity(stack.len() + 1);
-                if let Some(t) = program.trace.get(&(instr_ptr as u32)).cloned() {
+                if let Some(t) = program.trace.get(&(failing_instr.get() as u32)).cloned() {
                     trace.push(t);
                 }
                 for t in stack.iter_backwards() {
@@ -360,6 +364,7 @@ impl<Aux> Vm<'_, Aux> {
             };
 
         while *instr_ptr < len {
+            failing_instr.set(*instr_ptr);
             // the budget of the run is shared with the script functions that native functions
             // call back into (run_function re-enters this loop)
             self.remaining_iters = self.remaining_iters.saturating_sub(1);
